@@ -13,13 +13,14 @@ class Inconclusive(Exception):
 
 
 class Item:
-    __slots__ = ('kind', 'name', 'header', 'body', 'parsed', 'line0', 'nice', 'impl_key')
+    __slots__ = ('kind', 'name', 'header', 'body', 'parsed', 'line0', 'nice', 'impl_key', 'impl_ty')
 
     def __init__(self, kind, name, header, body, line0):
         self.kind, self.name, self.header, self.body, self.line0 = kind, name, header, body, line0
         self.parsed = None
         self.nice = None
         self.impl_key = None
+        self.impl_ty = None
 
     def nlines(self):
         return len(self.body or []) + 1
@@ -478,6 +479,7 @@ class CrateIndex:
             self.impl_generics[(rel, l1, c1, l2, c2)] = (iparams, targs)
             tb = strip_generics(trait).strip().split('::')[-1] if trait else None
             tyb = re.sub(r"'[a-z_]+\s*", '', strip_generics(ty)).replace('mut ', '').strip().lstrip('&').strip().split('::')[-1]
+            if tyb.startswith('dyn '): tyb = 'dyn ' + tyb[4:].split('::')[-1]
             return tyb, tb, (trait or '').strip(), ty.strip()
         # derive attribute: span is the trait name; the type is the next struct/enum declaration
         tb = span.split('::')[-1]
@@ -505,6 +507,7 @@ class CrateIndex:
                     tyb, tb, trait_full, ty_full = info
                     self.impls.setdefault((tyb, tb, mm.group(6)), []).append((it, trait_full, ty_full))
                     it.impl_key = key
+                    it.impl_ty = ty_full
                     it.nice = ('<%s as %s>::%s' % (ty_full, trait_full, mm.group(6))) if tb else '%s::%s' % (ty_full, mm.group(6))
 
     def _index_smir(self, text):
